@@ -26,7 +26,8 @@ def _expand_diff(tree):
     return proc(tree)
 
 
-def load(base="/repo/tests/annet/test_patch"):
+def load(base=None):
+    base = base or os.path.join(os.environ.get("VT_REPO", "/repo"), "tests/annet/test_patch")
     """-> {vendor: {"hw": hw, "trees": [odict...], "pairs": [(i_before, i_after)]}}"""
     if base in _cache:
         return _cache[base]
